@@ -55,7 +55,34 @@ SpecResult(c) ==
 VerdictSubst(c) ==
     IF Tokens(SpecResult(c)) # Tokens(c.g) THEN "tokens" ELSE "ok"
 
+(* "decl": a proposal that introduces declarations.                        *)
+(*   g: result forest, declared: symbols (character sequences) declared in  *)
+(*   the input, fresh: the symbols the proposal declares.                   *)
+(* clause fresh   : no declared symbol is already declared in the input     *)
+(* clause before  : each is declared in a command before its first use      *)
+RECURSIVE LeafSetN(_), LeafSetF(_)
+LeafSetN(n) == IF IsLeaf(n) THEN {n.d} ELSE LeafSetF(n.k)
+LeafSetF(f) == IF f = <<>> THEN {} ELSE LeafSetN(Head(f)) \cup LeafSetF(Tail(f))
+
+DeclHeads == { <<"d","e","c","l","a","r","e","-","c","o","n","s","t">>,
+               <<"d","e","c","l","a","r","e","-","f","u","n">> }
+IsDeclOf(n, s) == /\ ~IsLeaf(n) /\ Len(n.k) >= 2 /\ IsLeaf(n.k[1])
+                  /\ n.k[1].d \in DeclHeads /\ IsLeaf(n.k[2]) /\ n.k[2].d = s
+
+VerdictDecl(c) ==
+    LET fresh == {c.fresh[j] : j \in 1..Len(c.fresh)}
+        decl  == {c.declared[j] : j \in 1..Len(c.declared)}
+    IN IF fresh \cap decl # {} THEN "fresh"
+       ELSE IF \E s \in fresh :
+                 LET di == {j \in 1..Len(c.g) : IsDeclOf(c.g[j], s)}
+                     ui == {j \in 1..Len(c.g) : ~IsDeclOf(c.g[j], s)
+                                                 /\ s \in LeafSetN(c.g[j])}
+                 IN di = {} \/ \E u \in ui : \A d \in di : u < d
+            THEN "before"
+       ELSE "ok"
+
 Verdict(c) == CASE c.kind = "render" -> VerdictRender(c)
+                [] c.kind = "decl"   -> VerdictDecl(c)
                 [] c.kind = "redup"  -> VerdictRedup(c)
                 [] c.kind = "subst"  -> VerdictSubst(c)
                 [] OTHER             -> "unknown-kind"
